@@ -36,6 +36,8 @@ Grid(f) ==
     \cup (IF L.hi = -1 THEN { Num(100000, 1) }
           ELSE IF L.int THEN { Num(L.hi, 1), Num(L.hi + 1, 1), Num(L.hi * 10, 1) }
           ELSE { Num(L.hi, 1), Num(2 * L.hi + 1, 2), Num(L.hi * 10, 1) })
+    \* not-a-number: every comparison with it is false, so a limit written as `v < lo or v > hi` lets it through
+    \cup (IF L.int THEN {} ELSE { Txt("float:nan") })
 Values(key) ==
   IF key \in Leaves0 /\ FieldOf(key) \in Limited /\ IsDetectorLeaf(key) THEN Grid(FieldOf(key))
   ELSE { Num(3, 1), Num(5, 2), Num(0, 1), Txt("str:zz"), Txt("list:[1, 2]"), Txt("list:[0, 5]"), Txt("list:[[0, 1], [2, 0]]") }
